@@ -107,6 +107,56 @@ def grew(init_len, ops, alias_after=0):
     return None
 
 
+# ---- any value works as a map key: key equality is the language's == (IEEE numbers: -0 == 0, NaN equals nothing; strings by
+# content; booleans, nil; objects by identity), whatever the size of the map and whatever was removed from it before
+KEYS = [("0", ("n", 0.0)), ("0 * -1", ("n", 0.0)), ("1", ("n", 1.0)), ("2 / 2", ("n", 1.0)), ("0.5", ("n", 0.5)), ("1e21", ("n", 1e21)), ("-1", ("n", -1.0)),
+        ("4294967296", ("n", 4294967296.0)), ("0.1 + 0.2", ("n", 0.1 + 0.2)), ("0.3", ("n", 0.3)), ("true", ("b", True)), ("false", ("b", False)), ("nil", ("nil",)),
+        ("''", ("s", "")), ("'a'", ("s", "a")), ("'' + 'a'", ("s", "a")), ("'0'", ("s", "0")), ("'1'", ("s", "1")), ("o", ("o", 1)), ("o2", ("o", 1)), ("p", ("o", 2)),
+        ("0 / 0", ("nan",))]
+KEY_SIZES = [0, 20, 150, 600]
+
+
+def key_program(k1, k2, size):
+    """returns (source, expected stdout). Fillers: numbers 10.., strings 'k10'.., half of them removed later (tombstones), then re-added (rehash)."""
+    (e1, c1), (e2, c2) = KEYS[k1], KEYS[k2]
+    same = c1 == c2 and c1 != ("nan",)
+    nan1, nan2 = c1 == ("nan",), c2 == ("nan",)
+    b = lambda x: "true" if x else "false"
+    src = ("class O {}\nlet o = O(); let o2 = o; let p = O();\nlet m = {};\n"
+           "for i in %d.times() { m[i + 10] = i; m['k' + i.str()] = i; }\n" % size)
+    n = 2 * size
+    exp = []
+    src += "let a = %s; let b = %s;\nm[a] = 'first';\nprint(m.has(b), m.get(b), m.len(), [a].has(b), [a].index(b), (a, 'x').has(b), a == b);\n" % (e1, e2)
+    n += 1
+    exp.append("%s %s %d %s %s %s %s" % (b(same), "first" if same else "nil", n, b(same), "0" if same else "nil", b(same), b(same)))
+    src += "m[b] = 'second';\nprint(m.len(), m.get(a), m.get(b));\n"
+    if not same:
+        n += 1
+    exp.append("%d %s %s" % (n, "nil" if nan1 else ("second" if same else "first"), "nil" if nan2 else "second"))
+    src += "for i in %d.times() { if i - (i / 2).floor() * 2 == 0 { m.remove(i + 10); m.remove('k' + i.str()); } }\n" % size
+    n -= 2 * ((size + 1) // 2)
+    src += "print(m.len(), m.has(a), m.has(b), m.get(a));\n"
+    exp.append("%d %s %s %s" % (n, b(not nan1), b(not nan2), "nil" if nan1 else ("second" if same else "first")))
+    src += "try { print(m.remove(b)); } catch e { print('remove!', e.cls().name()); }\nprint(m.len(), m.has(a), m.has(b));\n"
+    if nan2:
+        exp.append("remove! KeyError")
+    else:
+        exp.append("second")
+        n -= 1
+    exp.append("%d %s false" % (n, b((not nan1) and not same)))
+    src += "for i in %d.times() { m[i + 10] = i; m['k' + i.str()] = i; m['extra' + i.str()] = i; }\nm[a] = 'third';\n" % size
+    # after re-adding: fillers 2*size + size extra
+    base_special = n - (2 * size - 2 * ((size + 1) // 2))
+    n = 3 * size + base_special
+    if nan1 or same or True:
+        # m[a] = 'third' adds an entry unless a is still present (a present iff not nan1 and not same)
+        if nan1 or same:
+            n += 1
+    src += "print(m.len(), m.get(a), m.get(b), m.has(10), m.has('k0'));\n"
+    exp.append("%d %s %s %s %s" % (n, "nil" if nan1 else "third", ("third" if same else "nil"), b(size > 0), b(size > 0)))
+    return src, "\n".join(exp) + "\n"
+
+
 class C10(Check):
     id = "C10"
     level = "exploration"
@@ -137,11 +187,20 @@ class C10(Check):
                     for ops in itertools.product(OPS, repeat=n):
                         for al in itertools.product(aliases, repeat=n):
                             yield (kind, (), tuple(zip(ops, al)), infn)
+        for size in KEY_SIZES:
+            for k1 in range(len(KEYS)):
+                for k2 in range(len(KEYS)):
+                    yield ("keys", k1, k2, size)
 
     def describe(self, spec):
+        if spec[0] == "keys":
+            return "map of %d fillers, key a = %s, key b = %s" % (2 * spec[3], KEYS[spec[1]][0], KEYS[spec[2]][0])
         return "subject=%s%s ops=%s in_function=%s aliases_taken_after=%d" % (spec[0], list(spec[1]) or "", ["%s via %s" % o for o in spec[2]], spec[3], spec[4] if len(spec) > 4 else 0)
 
     def build(self, spec):
+        if spec[0] == "keys":
+            src, want = key_program(spec[1], spec[2], spec[3])
+            return [{"src": src, "step_limit": 3000000}], ("ok", want, None)
         stmts = program(spec[0], spec[1], spec[2], spec[3], spec[4] if len(spec) > 4 else 0)
         src, _ = L.render(stmts)
         try:
@@ -158,7 +217,7 @@ class C10(Check):
             v.extra["machinery"] = True
             return v
         if r.get("class") == "ok" and r.get("out") == out:
-            return Verdict(True, len(spec[2]) > 0, "ok")
+            return Verdict(True, spec[0] == "keys" or len(spec[2]) > 0, "ok")
         exp_l, got_l = out.split("\n"), r.get("out", "").split("\n")
         k = next((i for i, (a, b) in enumerate(zip(exp_l, got_l)) if a != b), min(len(exp_l), len(got_l)))
         v = Verdict(False, True, "mismatch", "first difference at output line %d: expected %r got %r; class=%s err=%r %s" % (
